@@ -169,7 +169,15 @@ void run_export_case(const json& c, const std::string& workdir, std::vector<json
     }
 
     int i = 0;
-    for (auto& op : c.at("ops")) {
+    // "ops", then (optionally) "recover": executed after the first call that threw when "stop_on_exc" is set, else at the end
+    std::vector<json> script;
+    for (auto& op : c.at("ops")) script.push_back(op);
+    bool stop_on_exc = c.value("stop_on_exc", false);
+    bool in_recovery = false;
+    std::vector<json> recover;
+    if (c.contains("recover")) for (auto& op : c["recover"]) recover.push_back(op);
+    for (size_t si = 0; si < script.size(); si++) {
+        json op = script[si];
         std::string o = op.at("op").get<std::string>();
         json pre = json::object();
         std::size_t fill = Access::enc_fill(Access::exp_encoder(*x));
@@ -220,12 +228,32 @@ void run_export_case(const json& c, const std::string& workdir, std::vector<json
                 ok = true;
             });
             log.back()["closed"] = snapshot(cur);
+            log.back()["sysw"] = sys_summary()["writes"];
+            log.back()["phase"] = in_recovery ? "recover" : "main";
+            if (!ok && op.value("retry", false)) {
+                // the caller tries the rotation once more (same destination; a fresh descriptor for fd outputs)
+                logged(log, i, "rotate_retry", [&](json& e) {
+                    e["closes"] = cur.id; e["opens"] = nxt.id;
+                    if (cur.kind == "fd") { nxt.fd = open_fd(nxt.base); e["ret"] = x->rotate_output(nxt.fd, exp); }
+                    else e["ret"] = x->rotate_output(nxt.base, exp);
+                    ok = true;
+                });
+                log.back()["closed"] = snapshot(cur);
+            }
             if (ok) cur = nxt;
             else if (op.value("adopt_on_fail", false)) cur = nxt;
         }
         log.back()["fill"] = fill;
         log.back()["blocks_after"] = x->get_blocks_written_count();
+        log.back()["sysw"] = sys_summary()["writes"];
+        log.back()["phase"] = in_recovery ? "recover" : "main";
         i++;
+        bool threw = log.back().contains("exc") || (log.size() >= 2 && log[log.size() - 2].value("i", -5) == i - 1 && log[log.size() - 2].contains("exc") && !in_recovery);
+        if (!in_recovery && ((stop_on_exc && threw) || si + 1 == script.size()) && !recover.empty()) {
+            in_recovery = true;
+            script.resize(si + 1);
+            for (auto& r : recover) script.push_back(r);
+        }
     }
     {
         json e = json::object();
